@@ -97,6 +97,23 @@ theorem abs_eq (z x : Dec) (same : Bool) :
       { Decimal.set z x same with neg := (Gen.Facts.Abs (Decimal.set z x same).neg z.neg).zNeg } :=
   GenConv.abs_eq z x same
 
+/-- `SetInt64(x)` hands `(x < 0, |x|, 0)` to `setBits64` for every int64, `math.MinInt64` included. -/
+theorem setInt64_args (x : Int) (h1 : -9223372036854775808 ≤ x) (h2 : x ≤ 9223372036854775807) :
+    Gen.Facts.SetInt64 x =
+      { outcome := 0, tail := 1, args := [if x < 0 then 1 else 0, (x.natAbs : Int), 0] } :=
+  GenConv.setInt64_args x h1 h2
+
+theorem setUint64_args (x : Nat) :
+    Gen.Facts.SetUint64 x = { outcome := 0, tail := 1, args := [0, (x : Int), 0] } :=
+  GenConv.setUint64_args x
+
+/-- `NewDecimal(x, exp)` hands `(x < 0, |x|, exp)` to `setBits64` of a fresh Decimal: the model's `newDecimal`
+    (`setBits64` itself: `CGen.setBits64_eq`). -/
+theorem newDecimal_args (x e : Int) (h1 : -9223372036854775808 ≤ x) (h2 : x ≤ 9223372036854775807) :
+    Gen.Facts.NewDecimal x e =
+      { outcome := 0, tail := 1, args := [if x < 0 then 1 else 0, (x.natAbs : Int), e] } :=
+  GenConv.newDecimal_args x e h1 h2
+
 /-! ### the hypotheses are satisfiable; the re-assembled kernels compute -/
 
 private def xEx : WDec := { form := .finite, mant := [2500000000000000000, 1234567890123456789], exp := 3, prec := 40 }
@@ -127,5 +144,8 @@ private def same (a b : Except String WDec) : Bool := toString (repr a) == toStr
 #print axioms int64_eq
 #print axioms uint64_eq
 #print axioms abs_eq
+#print axioms setInt64_args
+#print axioms setUint64_args
+#print axioms newDecimal_args
 
 end Decimal.CGenK
